@@ -11,7 +11,7 @@ ID = "C11"
 LEVEL = "exploration"
 RULE = (
     "complete field-boundary products per structure against the independent encoders in ref/gkdi.py + ref/ndr64.py, both directions: 32-bit fields {0,1,31,2^31-1,2^31,2^32-1}; strings {'', 'a', "
-    "'SP800_108_CTR_HMAC', 'dömäin', non-BMP, 255 chars}; byte fields {0,1,63,64,65 bytes}; integers {0,1, values with 1/2/all-but-one leading zero bytes, maximal} at key lengths {1,2,32,48,66,256}; "
+    "'SP800_108_CTR_HMAC', 'dömäin', non-BMP, 255 chars, leading U+FEFF / U+FFFE, embedded NUL, U+10FFFF}; byte fields {0,1,63,64,65 bytes}; integers {0,1, values with 1/2/all-but-one leading zero bytes, maximal} at key lengths {1,2,32,48,66,256}; "
     "curves P256/P384/P521. KDF parameters, FFC DH parameters, FFC DH key, ECDH key, key identifier (all pairs of fields), group key envelope (all single-field extremes, all pairs of fields over a reduced "
     "alphabet, the all-extreme corner). GetKey request: SD length 0..40 x root key id {absent,present} x (l0,l1,l2) in {-1,0,31,2^31-1}^3. GetKey response: envelope lengths over every residue mod 8 "
     "(domain length 0..8 x forest 0..1) x HRESULT {0, 0x80070005, 0x80070002 with NULL pointer}. Oracle: x.pack() == reference bytes; X.unpack(x.pack()) == x; X.unpack(reference bytes) == x; non-zero "
@@ -21,7 +21,7 @@ ASSUME = ["ref/gkdi.py structure codecs calibrated on the captured structures in
 BOUND = {"quick": "pairs over reduced alphabets", "thorough": "pairs over the full alphabets, triples for the key identifier"}
 
 U32 = [0, 1, 31, 2**31 - 1, 2**31, 2**32 - 1]
-STRS = ["", "a", "SP800_108_CTR_HMAC", "dömäin", "\U0001d521.test", "x" * 255]
+STRS = ["", "a", "SP800_108_CTR_HMAC", "dömäin", "\U0001d521.test", "x" * 255, "\ufeffbom.test", "\ufffeab", "a\x00b", "\udbff\udfff".encode("utf-16", "surrogatepass").decode("utf-16") + "z"]
 BYTES = [b"", b"\x01", bytes(range(63)), bytes(range(64)), bytes(range(65))]
 UUIDS = [uuid.UUID(int=0), uuid.UUID("2e1b932a-4e21-ced3-0b7b-8815aff8335d"), uuid.UUID(int=2**128 - 1)]
 
